@@ -7,3 +7,5 @@ import JaxVerif.Properties.C11
 #print axioms JV.C11_no_hook
 #print axioms JV.C11_lookup
 #print axioms JV.C11_generated_good
+#print axioms JV.C11_source_should
+#print axioms JV.C11_source_find_spec
